@@ -298,6 +298,10 @@ func (d *dialer) Dial(network, a string) (net.Conn, error) {
 	c.owner = d.owner
 	d.conns = append(d.conns, c)
 	cl.mu.Unlock()
-	cl.k.logf("dial %s ok c%d", a, c.id)
+	if os.Getenv("SIM_ADDR") != "" {
+		cl.k.logf("dial %s ok c%d addr=%p", a, c.id, c)
+	} else {
+		cl.k.logf("dial %s ok c%d", a, c.id)
+	}
 	return c, nil
 }
